@@ -599,7 +599,13 @@ func checkSide(run *MixRun) {
 				e.Note("side.end-not-last")
 			}
 			if (endErr == nil) != succeeded {
-				e.Violate(prop, "stats-end-error", site, "call %d: %s stats handler %d: End.Error=%v but RPC succeeded=%v", id, side, h.idx, endErr, succeeded)
+				esite := site
+				if cerr, _ := callerErr(r); h.side == 'c' && endErr == nil && cerr != nil && strings.Contains(cerr.Error(), "cannot parse invalid wire-format") {
+					// the caller's RecvMsg could not decode a message whose envelope the stream's
+					// read loop had already passed on, together with the final OK status behind it
+					esite += ".undecodable-message-before-ok-status"
+				}
+				e.Violate(prop, "stats-end-error", esite, "call %d: %s stats handler %d: End.Error=%v but RPC succeeded=%v", id, side, h.idx, endErr, succeeded)
 			}
 			e.Note("side.stats")
 		}
